@@ -62,6 +62,7 @@ inline json pos_json(const Document* doc, const position_t& p)
     return j;
 }
 
+inline json type_trees(const type_t& t, const Document* doc);
 // expression tree: kind, children in order, symbol (name, declared type, declaration position), exact constants
 inline json expr_tree(const expression_t& e, const Document* doc = nullptr, bool types = false, int depth = 0)
 {
@@ -88,6 +89,8 @@ inline json expr_tree(const expression_t& e, const Document* doc = nullptr, bool
     } else if (k == Constants::DOT) {
         j["i"] = e.get_index();
         if (types) j["ts"] = safe_type_str(e.get_type());
+    } else if (k == Constants::ARRAY) {
+        if (types) j["ts"] = safe_type_str(e.get_type());
     } else if (k == Constants::SYNC) {
         j["sync"] = (int)e.get_sync();
     } else if (k == Constants::VAR_INDEX) {
@@ -97,10 +100,23 @@ inline json expr_tree(const expression_t& e, const Document* doc = nullptr, bool
     if (n) {
         json ch = json::array();
         for (size_t i = 0; i < n; ++i) ch.push_back(expr_tree(e.get(i), doc, types, depth + 1));
+        if (types && (k == Constants::FORALL || k == Constants::EXISTS || k == Constants::SUM) && e.get(0).get_kind() == Constants::IDENTIFIER && !(e.get(0).get_symbol() == symbol_t())) {
+            json tx = type_trees(e.get(0).get_symbol().get_type(), doc);      // what is written in the binder's type
+            if (!tx.empty()) j["btx"] = std::move(tx);
+        }
         j["c"] = std::move(ch);
     }
     return j;
 }
+
+// the expressions written inside a type (range bounds, array sizes), as trees: which declaration an identifier used in a TYPE is bound to
+inline void type_trees(const type_t& t, const Document* doc, json& out, int depth = 0)
+{
+    if (t == type_t() || depth > 40) return;       // (range bounds live in children of kind UNKNOWN)
+    if (!t.get_expression().empty()) out.push_back(expr_tree(t.get_expression(), doc, true));
+    for (uint32_t i = 0; i < t.size(); ++i) type_trees(t.get(i), doc, out, depth + 1);
+}
+inline json type_trees(const type_t& t, const Document* doc) { json a = json::array(); type_trees(t, doc, a); return a; }
 
 inline json err_json(const UTAP::error_t& e)
 {
@@ -126,6 +142,8 @@ inline json err_json(const UTAP::error_t& e)
 struct StmtExprs : public AbstractStatementVisitor
 {
     std::vector<expression_t> exprs;
+    std::vector<type_t> binder_types;      // types of iteration binders: for (i : T)
+    int32_t visitIterationStatement(IterationStatement* s) override { binder_types.push_back(s->symbol.get_type()); return s->stat ? s->stat->accept(this) : 0; }
     int32_t visitExprStatement(ExprStatement* s) override { exprs.push_back(s->expr); return 0; }
     int32_t visitAssertStatement(AssertStatement* s) override { exprs.push_back(s->expr); return 0; }
     int32_t visitForStatement(ForStatement* s) override { exprs.push_back(s->init); exprs.push_back(s->cond); exprs.push_back(s->step); return s->stat ? s->stat->accept(this) : 0; }
@@ -162,6 +180,7 @@ struct Dumper
         for (uint32_t i = 0; i < f.get_size(); ++i) {
             const symbol_t& s = f[i];
             a.push_back(json{{"name", s.get_name()}, {"type", safe_type_str(s.get_type())}});
+            if (trees) a.back()["tx"] = type_trees(s.get_type(), &doc);
         }
         return a;
     }
@@ -177,6 +196,7 @@ struct Dumper
         json vars = json::array();
         for (auto& v : d.variables) {
             vars.push_back(json{{"name", v.uid.get_name()}, {"type", safe_type_str(v.uid.get_type())}, {"init", ex(v.init)}});
+            if (trees) vars.back()["tx"] = type_trees(v.uid.get_type(), &doc);
             if (v.uid.get_data() != &v) bad("variable is not the user object of its symbol", where + "/var:" + v.uid.get_name());
         }
         j["vars"] = vars;
@@ -187,6 +207,7 @@ struct Dumper
             json lv = json::array();
             for (auto& v : f.variables) {
                 lv.push_back(json{{"name", v.uid.get_name()}, {"type", safe_type_str(v.uid.get_type())}, {"init", ex(v.init)}});
+                if (trees) lv.back()["tx"] = type_trees(v.uid.get_type(), &doc);
                 if (v.uid.get_data() != &v) bad("function local is not the user object of its symbol", where + "/fun:" + f.uid.get_name() + "/var:" + v.uid.get_name());
             }
             fj["locals"] = lv;
@@ -197,6 +218,10 @@ struct Dumper
                 json ea = json::array();
                 for (auto& e : se.exprs) ea.push_back(expr_tree(e, &doc, true));
                 fj["exprs"] = ea;
+                json bt = json::array();
+                for (auto& ty : se.binder_types) type_trees(ty, &doc, bt);
+                fj["iter_tx"] = bt;
+                fj["tx"] = type_trees(f.uid.get_type(), &doc);
             }
             funs.push_back(fj);
             if (f.uid.get_data() != &f) bad("function is not the user object of its symbol", where + "/fun:" + f.uid.get_name());
